@@ -283,6 +283,9 @@ fn cpi(ix: &Instruction, infos: &[AccountInfo], signers_seeds: &[&[&[u8]]]) -> P
     if pid == anchor_spl::associated_token::ID {
         return ata_program(&ordered, &ix.data);
     }
+    if pid == anchor_spl::metadata::ID {
+        return metadata_program(&ordered, &ix.data);
+    }
     Err(ProgramError::IncorrectProgramId)
 }
 
@@ -355,6 +358,51 @@ fn ata_program(a: &[AccountInfo], data: &[u8]) -> ProgramResult {
         let ix = anchor_spl::token::spl_token::instruction::initialize_account3(&tp, ata.key, mint.key, wallet.key)?;
         run(ix, &[ata.clone(), mint.clone()])
     }
+}
+
+/// A stand-in for the Metaplex token-metadata program (no processor crate is available offline), enough for
+/// CreateMetadataAccountV3 as the whirlpool program issues it: accounts
+/// [metadata (writable), mint, mint authority (signer), payer (signer, writable), update authority, system program, (rent)].
+/// It checks what the real program checks of these accounts — the metadata address is the program's PDA for the mint,
+/// the mint authority is the mint's and signs, the payer signs, the metadata account is new — and records the
+/// instruction: the created account is owned by the metadata program and holds
+/// `key (4) | update authority | mint | the instruction data as sent`.
+fn metadata_program(a: &[AccountInfo], data: &[u8]) -> ProgramResult {
+    if a.len() < 6 || data.first() != Some(&33) {
+        return Err(ProgramError::InvalidInstructionData); // 33 = CreateMetadataAccountV3
+    }
+    let (metadata, mint, mint_auth, payer, update_auth) = (&a[0], &a[1], &a[2], &a[3], &a[4]);
+    let pid = anchor_spl::metadata::ID;
+    let (expected, _) = Pubkey::find_program_address(&[b"metadata", pid.as_ref(), mint.key.as_ref()], &pid);
+    if expected != *metadata.key {
+        return Err(ProgramError::InvalidSeeds);
+    }
+    if !mint_auth.is_signer || !payer.is_signer {
+        return Err(ProgramError::MissingRequiredSignature);
+    }
+    if *metadata.owner != system_id() || !metadata.data_is_empty() {
+        return Err(ProgramError::AccountAlreadyInitialized);
+    }
+    {
+        let md = mint.try_borrow_data()?;
+        if *mint.owner != anchor_spl::token::ID || md.len() < 82 || md[0..4] != 1u32.to_le_bytes() || md[4..36] != mint_auth.key.to_bytes() {
+            return Err(ProgramError::Custom(0x4D45_5441)); // not the mint's authority
+        }
+    }
+    let mut body = vec![4u8];
+    body.extend_from_slice(update_auth.key.as_ref());
+    body.extend_from_slice(mint.key.as_ref());
+    body.extend_from_slice(data);
+    let lamports = 890_880 + 6_960 * body.len() as u64;
+    if **payer.lamports.borrow() < lamports {
+        return Err(ProgramError::InsufficientFunds);
+    }
+    **payer.lamports.borrow_mut() -= lamports;
+    **metadata.lamports.borrow_mut() += lamports;
+    metadata.realloc(body.len(), true)?;
+    metadata.try_borrow_mut_data()?.copy_from_slice(&body);
+    metadata.assign(&pid);
+    Ok(())
 }
 
 fn system_program(a: &[AccountInfo], data: &[u8]) -> ProgramResult {
